@@ -626,12 +626,14 @@ class RecordContextMatcher:
                         value = False
                     else:
                         raise
-                value = bool(value)
                 values.append(value)
-            result = values.pop(0)
-            for value in values:
-                result = AST_OPERATORS[type(node.op)](result, value)
-            return result
+            # As in Python, the value of `and` / `or` is the operand that decides it (not its truth value),
+            # so that e.g. `(r.a or r.b) == 'x'` compares the chosen operand
+            decides = isinstance(node.op, ast.Or)
+            for value in values[:-1]:
+                if bool(value) is decides:
+                    return value
+            return values[-1]
         elif isinstance(node, ast.BinOp):
             left = self.eval(node.left)
             right = self.eval(node.right)
